@@ -16,7 +16,8 @@ type Profile struct {
 	Cross    bool // by-construction scope patterns: every binder form x every block form on a fresh name, own-name rebinding, closure factories called several times (C04)
 	HostChan bool // the environment is prog.NewHost (has gch(v), a buffered channel holding v, and the callback-taking gcall0 / geach): `x = <-gch(v)` binder forms, script callbacks handed to Go
 	Assign   bool // by-construction pattern assignCross: every ASSIGNING form (the ones without var) on a name that an enclosing scope binds, inside every block form, read inside and afterwards (C04); needs HostChan for the receive and gset(&x, v) forms
-	ErrOps   bool // patterns of gen_errops.go (C09): an operand that is not the last one fails inside a compound expression, runtime errors raised by the interpreter's own operations (string repeat overflow, closed channels, ...), a deferred call assigns the typed-slice element / struct field just returned; needs Errors and HostChan
+	ErrOps   bool // patterns of gen_errops.go (C09): an operand that is not the last one fails inside a compound expression, runtime errors raised by the interpreter's own operations (string repeat overflow, closed channels, ...), a deferred call assigns the typed-slice element / struct field just returned, deferred calls whose arguments are read from slots stored into afterwards (gen_deferargs.go); needs Errors and HostChan
+	CtlVals  bool // patterns of gen_ctlvals.go (C08): for-in over maps whose entries hold values of every class (nil included), functions that return an element or field holding a slice or a map while deferred calls assign it; needs HostChan (the Go struct hbox)
 	MaxDepth int
 	MaxStmts int // statements per block
 }
@@ -247,6 +248,11 @@ func (g *G) stmt(c *gctx) []*N {
 		add(2, func() []*N { return g.deferAfterReturnedTypedSlot(c) })
 		add(2, func() []*N { return []*N{g.guarded(c, g.rterrStmt())} })
 		add(4, func() []*N { return g.deferArgsHeld(c) })
+	}
+	if P.CtlVals && !deep {
+		// after every other option, for the same reason (gen_ctlvals.go)
+		add(4, func() []*N { return g.forinMapEntryClasses(c) })
+		add(3, func() []*N { return g.returnHeldRef(c) })
 	}
 	total := 0
 	for _, o := range opts {
